@@ -369,8 +369,14 @@ def o4_o5_cases(state):
     if cs1.coord_system == cs2.coord_system or str(cs1.coord_system) == str(cs2.coord_system):
         bad.append("two coordinate systems alias")
     cs3 = coordinates_transform(cs1, CoordinateSystem.System.CYLINDRICAL)
-    if str(cs3.coord_system) in (str(cs1.coord_system), str(cs2.coord_system)):
-        bad.append("transformed coordinate system aliases")
+    cs4 = coordinates_transform(cs1, CoordinateSystem.System.SPHERICAL)
+    cs5 = coordinates_transform(cs1, CoordinateSystem.System.CYLINDRICAL)
+    names = [str(c.coord_system) for c in (cs1, cs2, cs3, cs4, cs5)]
+    if len(set(names)) != 5 or cs3.coord_system == cs4.coord_system or cs3.coord_system == cs5.coord_system:
+        bad.append(f"coordinate systems created through the library alias: {names}")
+    z3_, ph4 = cs3.coord_system.base_scalars()[2], cs4.coord_system.base_scalars()[2]
+    if (z3_ + 2 * ph4).subs(ph4, 1) != z3_ + 2 or sp.diff(z3_ * ph4, ph4) != z3_:
+        bad.append("base scalars of two transformed systems alias under subs/diff")
     v1, v2 = VectorSymbol("v"), VectorSymbol("v")
     if v1 == v2:
         bad.append("two VectorSymbols with equal display names alias")
